@@ -583,7 +583,7 @@ static void tx_trigger_page(struct vf_rng *r)
 		tx_ttx_row(p, 1, k, row);
 		decode_line(VBI_SLICED_TELETEXT_B, 8, p, 42);
 	}
-	tx_ttx_header(p, 0x100, 0, 0, 0, "C11 HEADER                      ");
+	tx_ttx_header(p, 0x1FF, 0x3F7F, 0, 0, "C11 HEADER                      ");      /* time filling header: ends 1E7, opens no page */
 	decode_line(VBI_SLICED_TELETEXT_B, 9, p, 42);
 	vf_count("real_trigger_pages", 1);
 	vf_count("real_triggers_sent", n);
@@ -599,7 +599,7 @@ static void real_input(struct vf_rng *r, int *next_page)
 		*next_page = pg + 1;
 		if ((*next_page & 15) > 9) *next_page += 6;
 		if ((*next_page & 0xF0) > 0x90) *next_page += 0x60;
-		if (pg <= 0x799) {
+		if (pg <= 0x899) {
 			unsigned w = vf_below(r, 12);
 			if (w < 4) tx_page_in_frame(r, pg, vf_range(r, 1, 3));
 			else if (w < 6) tx_page_interrupted(r, pg);
@@ -760,6 +760,9 @@ static int run_random(struct vf_rng *r)
 
 	begin_case();
 	if (!vbi) { vf_fail("harness:alloc", "vbi_decoder_new failed"); return 0; }
+	/* pages of every magazine: magazine 1 also carries the trigger page 1E7, magazine 8 is number 0 on air */
+	{ static const int first[] = { 0x100, 0x100, 0x170, 0x200, 0x300, 0x450, 0x600, 0x780, 0x800 };
+	  next_page = first[vf_below(r, sizeof first / sizeof first[0])]; }
 	nslots = vf_range(r, 2, 6);
 	for (i = 0; i < nslots; i++) { slots[i][0] = (int)vf_below(r, NF - 1); slots[i][1] = (int)vf_below(r, NU); }
 	nfocus = vf_range(r, 1, 3);
